@@ -1,5 +1,6 @@
 #!/bin/bash
 # Runs every registered check on the unchanged tree (strict: UNDECIDED is an error) and then every seeded mutation.
+# Seeded runs write their evidence and replay files outside /verif, so that /verif/evidence always describes /repo itself.
 cd /verif
 fail=0
 props=$(python3 -c "import json;print(' '.join(c['property_id'] for c in json.load(open('MANIFEST.json'))['checks']))")
@@ -10,14 +11,15 @@ for p in $props; do
   if [ $rc -ne 0 ]; then echo "!! unchanged tree: $p rc=$rc"; echo "$out" | tail -5; fail=1; fi
 done
 fi
+if [ "$1" == "--unchanged-only" ]; then exit $fail; fi
 for d in seeded/*/; do
   id=$(basename $d); prop=$(python3 -c "import json;print(json.load(open('$d/meta.json'))['property'])")
   if ! git -C /repo apply /verif/$d/patch.diff 2>/dev/null; then echo "!! $id: patch does not apply"; fail=1; continue; fi
-  out=$(./check $prop 2>&1); rc=$?
+  out=$(VERIF_EVIDENCE_DIR=/tmp/verif-seeded-evidence VERIF_REPLAY_DIR=/tmp/verif-seeded-replays ./check $prop 2>&1); rc=$?
   git -C /repo checkout -- .
   v=$(echo "$out" | grep -c "^VIOLATION")
   echo "seeded $id ($prop): rc=$rc violations=$v $(echo "$out" | grep -E '^VIOLATION|^UNDECIDED' | head -1 | cut -c1-140)"
   if [ $rc -ne 1 ]; then fail=1; echo "!! $id NOT detected"; fi
 done
-rm -rf /verif/replay/out
+rm -rf /verif/replay/out /tmp/verif-seeded-evidence /tmp/verif-seeded-replays
 exit $fail
